@@ -53,6 +53,9 @@ class PDBParser(LineParser):
         Which model to take.
     """
 
+    # PDB is a fixed-column format without comments: a '#' is data.
+    COMMENT_CHAR = None
+
     def __init__(self, exclude=('SOL',), ignh=False, modelidx=1):
         self.active_molecule = Molecule()
         self.molecules = []
